@@ -144,6 +144,7 @@ def history_ops():
     """name -> callable performing one loads call; returns canon or raises."""
     import pyworkers.remote_pickle as rp
     from pyworkers.remote_pickle import SupportRemoteGetState
+    G._uid[0] = 100000          # every instance of the alphabet builds identical graphs
     if 'RBoomC' not in G.__dict__:
         def __getstate__(self, remote=False):
             return dict(self.__dict__)
@@ -177,9 +178,14 @@ def history_ops():
         return rp.dumps(top)
     booms = {d: boom_chain(d) for d in (1, 2, 3)}
     good2 = rp.dumps(g, 2)
+    go, _ = G.build(('R', 'RBase', [('a', ('R', 'RBase', [('x', ('i', 100)), ('extra', ('i', 7))])), ('n', ('i', 6)), ('m', ('i', 1))]))
+    other = rp.dumps(go)
     P1 = {'n': 9, 'a': {'x': 2}}
     P2 = {'a': {'b': {'y': 8}}, 'top': 1}
+    shared = {'n': 9, 'a': {'x': 2}}      # one dictionary object the caller keeps passing to several calls
     ops = {
+        'good+same-patch-object': lambda: G.canon(rp.loads(good, extra_kwargs=shared)),
+        'other+same-patch-object': lambda: G.canon(rp.loads(other, extra_kwargs=shared)),
         'good+patch': lambda: G.canon(rp.loads(good, extra_kwargs=copy.deepcopy(P1))),
         'good': lambda: G.canon(rp.loads(good)),
         'chain+patch': lambda: G.canon(rp.loads(chain, extra_kwargs=copy.deepcopy(P2))),
@@ -213,17 +219,18 @@ def history_part(ctx, sigs):
     import itertools
     ops = history_ops()
     names = sorted(ops)
-    fresh = {n: on_fresh_thread(ops[n]) for n in names}
+    fresh = {n: on_fresh_thread(history_ops()[n]) for n in names}
     ctx.extra['history_alphabet'] = {n: (fresh[n][0] if fresh[n][0] == 'ok' else fresh[n][1]) for n in names}
     depth = 3 if ctx.quick else 4
     nh = 0
     for d in range(1, depth + 1):
         for hist in itertools.product(names, repeat=d):
             res = []
+            hops = history_ops() if any('same-patch-object' in n for n in hist) else ops     # a fresh caller-owned dictionary per history
 
             def body():
                 for n in hist:
-                    res.append(run_op(ops[n]))
+                    res.append(run_op(hops[n]))
             t = threading.Thread(target=body)     # one thread per history: the "same thread" of the statement
             t.start()
             t.join()
@@ -293,7 +300,7 @@ def run(ctx):
     import logging
     logging.disable(logging.CRITICAL)
     ctx.rule = ('(graph, patch dictionary) pairs: graphs as in C14, patch menu derived from the top-level state; histories: all sequences '
-                'of loads calls over a 10-call alphabet (good, patched, corrupt, raising __setstate__ at depth 1-3, two-sibling failure) '
+                'of loads calls over a 12-call alphabet (good, patched, corrupt, raising __setstate__ at depth 1-3, two-sibling failure) '
                 'up to the depth bound; concurrent loads: all schedules within the preemption bound; distinct = pair / history / scenario')
     ctx.assumptions = ['the harness passes a fresh deep copy of the patch dictionary to every call (the library writes restored children into it)']
     sigs = {}
